@@ -242,14 +242,18 @@ class GeometricInterrupts(InterruptsBase):
         r"""
         Args:
             scale (float):
-                Time scale :math:`\Delta t`.
+                Time scale :math:`\Delta t`. Needs to be positive.
             factor (float):
-                Scale factor :math:`f`.
+                Scale factor :math:`f`. Needs to be larger than 1 so that the
+                sequence increases.
         """
         self.scale = float(scale)
         self.factor = float(factor)
-        if factor <= 0:
-            msg = "Factor must be a positive number"
+        if not scale > 0:
+            msg = "Scale must be a positive number"
+            raise ValueError(msg)
+        if not factor > 1:
+            msg = "Factor must be larger than 1"
             raise ValueError(msg)
         self._t_next: float | None = None  # next time it should be called
 
